@@ -10,6 +10,7 @@ import (
 	"regexp"
 	"runtime"
 	"sort"
+	"strconv"
 	"strings"
 	"sync"
 	"time"
@@ -94,9 +95,32 @@ func New(prop, tier string, seed uint64, shard, nshards int, lastCasePath string
 // Thorough reports whether the thorough tier is running.
 func (c *Ctx) Thorough() bool { return c.Tier == "thorough" }
 
+// quickMult multiplies the seeded-random part of the quick tier (the sizes the
+// workloads were first written with left every quick check under 25 s; the
+// factors bring each to roughly half a minute on the 16-core sandbox). The
+// factor is part of the definition of the case list, so a replay file stays
+// valid; VERIF_QUICK_MULT overrides it for experiments only.
+var quickMult = map[string]int{}
+
+// QuickMult returns the factor for a property (1 if none is registered).
+func QuickMult(prop string) int {
+	if s := os.Getenv("VERIF_QUICK_MULT"); s != "" {
+		if v, err := strconv.Atoi(s); err == nil && v > 0 {
+			return v
+		}
+	}
+	if m, ok := quickMult[prop]; ok && m > 0 {
+		return m
+	}
+	return 1
+}
+
 // Scale picks a tier-dependent size and divides it over the shards.
 func (c *Ctx) Scale(quick, thorough int) int {
-	n := quick
+	n := quick * QuickMult(c.Prop)
+	if n > thorough && thorough >= quick {
+		n = thorough
+	}
 	if c.Thorough() {
 		n = thorough
 	}
